@@ -167,7 +167,12 @@ func (vc *FuncVC) nopanic(st *State, what string, instr ssa.Instruction, cond st
 	vc.addOblig(st, "nopanic", "nopanic/"+what+vc.instrOrd(instr, what), vc.panicTags(), cond)
 }
 
-func (vc *FuncVC) panicTags() []string { return vc.eng.panicTagsFor(vc.name) }
+func (vc *FuncVC) panicTags() []string {
+	if vc.contract != nil {
+		return vc.contract.PanicTags
+	}
+	return nil
+}
 
 // instrOrd: ordinal of this instruction among same-kind instructions of its function.
 func (vc *FuncVC) instrOrd(instr ssa.Instruction, what string) string {
